@@ -174,6 +174,16 @@ def list_subqueries(segment: BaseSegment) -> list[SubQueryTuple]:
                                 else None
                             )
                             subquery.append(SubQueryTuple(bracketed_segment, alias))
+                    if else_clause := case_expression.get_child("else_clause"):
+                        for else_expression in else_clause.get_children("expression"):
+                            for bracketed in else_expression.get_children("bracketed"):
+                                if is_subquery(bracketed):
+                                    subquery.append(SubQueryTuple(bracketed, None))
+                else:
+                    # scalar subquery: SELECT (SELECT ...) AS col
+                    for bracketed in expression.get_children("bracketed"):
+                        if is_subquery(bracketed):
+                            subquery.append(SubQueryTuple(bracketed, None))
             elif function := select_clause_element.get_child("function"):
                 for bracketed in function.recursive_crawl("bracketed"):
                     if is_subquery(bracketed):
